@@ -53,13 +53,13 @@ CHECKS["C17"] = {
 CHECKS["C10"] = {
     "text": "BINARY READER'S HEADER/SLICING LAYER AND WORD CODECS ONLY. Proof by Kani/CBMC on the real crates/tfm code: RawFile::deserialize + finish_deserialization return Ok or a documented error - never a panic, overflow or out-of-bounds - for EVERY byte string of every length 0..=28 (all truncated-header cases) and, as a bounded stand-in, for all 2^192 header values against files of 32..100 bytes; on Ok the twelve sections are consecutive, disjoint and cover exactly b[0..4*lf]. Every 4-byte word decoder (u32, fix_word, char_info, lig/kern instruction, extensible recipe) is total on all 2^32 words and the serializers are total on every decoded value.",
     "design_ref": "DESIGN.md §5 C10",
-    "note": "NOT decided: validate_and_fix, the PL text parser, PL->TFM ('arbitrary text never panics', 'output is a readable TFM'). Known finding listed: KernAtIndex(index >= 0x8000) overflows the serializer.",
+    "note": "NOT proved: validate_and_fix, the PL text parser, PL->TFM ('arbitrary text never panics', 'output is a readable TFM') - these are covered only by the bounded whole-file driver tfm_files (generated .tfm files and mutilated property lists through the real tftopl/pltotf; labelled bounded, never counted), which found two panics that were repaired. Known finding listed: KernAtIndex(index >= 0x8000) overflows the serializer.",
     "technique": "Kani/CBMC bit-precise harnesses with function-contract style assertions (loop-free code, fully symbolic bytes, concrete lengths)",
 }
 CHECKS["C11"] = {
     "text": "WORD LEVEL ONLY. Proof by Kani/CBMC over all 2^32 values of each 4-byte TFM word form: encode(decode(w)) == w for u32, fix_word and extensible recipes; for char_info and lig/kern words decode.encode is idempotent (canonical form is a fixed point) and preserves skip byte, right character, remainder and kern index; SubFileSizes <-> 24 header bytes are inverse on all 2^192 values. This catches any change to a bit layout or tag mapping.",
     "design_ref": "DESIGN.md §5 C11",
-    "note": "NOT decided: the composition through the PL text printer/parser, pack_entrypoints/unpack_entrypoint, dimension-table compression, i.e. the byte-for-byte fixed point of whole files and preservation of lig/kern behaviour.",
+    "note": "NOT proved: the composition through the PL text printer/parser, pack_entrypoints/unpack_entrypoint, dimension-table compression, i.e. the byte-for-byte fixed point of whole files and preservation of lig/kern behaviour - covered only by the bounded whole-file driver tfm_files (every warning-free generated file reaches a canonical fixed point describing the same font; labelled bounded, never counted).",
     "technique": "Kani/CBMC exhaustive-by-symbolic-execution word codec round trips",
 }
 
